@@ -78,6 +78,21 @@ pub fn run_on_kernel(cfg: simkernel::KConfig, body: impl FnOnce()) -> Result<sim
     Ok(end)
 }
 
+/// Like `run_on_kernel`, with the calling thread as thread 0 of a multi-threaded run (Engine M): threads the
+/// body starts are scheduled by the simulator; all of them have ended when this returns.
+pub fn run_on_kernel_multi(cfg: simkernel::KConfig, body: impl FnOnce()) -> Result<(simkernel::EndState, simkernel::multi::MultiEnd), Violation> {
+    let mut multi = None;
+    let end = run_on_kernel(cfg, || {
+        simkernel::multi::begin();
+        let r = std::panic::catch_unwind(std::panic::AssertUnwindSafe(body));
+        multi = Some(simkernel::multi::end());
+        if let Err(p) = r {
+            std::panic::resume_unwind(p);
+        }
+    })?;
+    Ok((end, multi.expect("multi-threaded run ended")))
+}
+
 /// The process's open descriptors with what they refer to (kind only: no inode numbers, which differ
 /// between processes and would make logs of the same run differ).
 fn open_fds() -> Vec<(i32, String)> {
